@@ -4,6 +4,7 @@ T2: utils.soc / utils.base_soc / SDevice.charge_at / the constraints' inner soc(
 `fun` of the SoC constraints) / all storage constraint values / TDevice.t_base / TDevice.r2t against the
 Lean model (DK.soc, baseSoc, chargeAt, socDot, Leaf.cons, tBase, r2t) at exact rationals.
 Oracle: the recurrence of the property text as a plain loop over exact fractions, never the model."""
+import json
 from fractions import Fraction
 from .. import common as C, gen, build
 from ..common import F, fs, dy
@@ -184,6 +185,59 @@ def gen_set_sdev(rng, tier):
   return case
 
 
+# ------------------------------------------------------------------ histories (`hist`): a call on one device, then states of others
+def gen_hist(rng, tier):
+  """evaluate cost / deriv / hess of one storage device, THEN compute the state of the same device and of NEW storage and
+  thermal devices (and utils.soc) with the same (sustainment, horizon): nothing a device computes may change what another
+  one reports (the decay weights are one lru-cached matrix per (sustainment, n) shared by every device of the process)."""
+  warm = gen_sdev(rng, tier)
+  while warm['dev']['n'] > 6:
+    warm = gen_sdev(rng, tier)
+  d = warm['dev']; n = d['n']; p = d['prm']
+  p['efficiency'] = rng.choice(['1/2', '3/4', '7/8', '1/4', '1'])
+  p['c3'] = rng.choice(['1', '2', '0'])
+  p.pop('rate_clip', None)
+  sus = p['sustainment']
+  lbf = [F(x) for x in d['lb']]; hbf = [F(x) for x in d['hb']]
+  then = [{'kind': 'sdev', 'same': True, 'r': [fs(x) for x in mixed_flow(rng, lbf, hbf)]}]
+  other = gen_sdev(rng, tier)
+  while other['dev']['n'] != n:
+    other = gen_sdev(rng, tier)
+  other['dev']['prm']['sustainment'] = sus
+  then.append(other)
+  th = gen_tdev(rng, tier)
+  while th['dev']['n'] != n:
+    th = gen_tdev(rng, tier)
+  th['dev']['prm']['sustainment'] = sus
+  then.append(th)
+  then.append({'kind': 'soc', 'r': [fs(x) for x in free_vec(rng, n)], 's': sus, 'e': rng.choice(EFF_S + EFF_T)})
+  calls = rng.sample(['deriv', 'deriv', 'cost', 'hess'], rng.randint(1, 3)) if n <= 3 else rng.sample(['deriv', 'deriv', 'cost'], rng.randint(1, 2))
+  if 'deriv' not in calls and rng.random() < 0.7:
+    calls.append('deriv')
+  return {'kind': 'hist', 'warm': warm, 'calls': calls, 'then': then}
+
+
+def fresh_caches():
+  """every case starts from empty library caches, so a verdict never depends on which cases ran before it (replayable)."""
+  C.repo()
+  from device_kit import utils
+  for f in (getattr(utils, 'sustainment_matrix', None), getattr(utils, 'power_matrix', None)):
+    if hasattr(f, 'cache_clear'):
+      f.cache_clear()
+
+
+def do_warm(case):
+  """the first part of a history: build the storage device and call the listed methods at its flow."""
+  w = case['warm']
+  dev = make_dev(w)
+  r = flat_arr(w).astype(float)
+  for c in case['calls']:
+    if c == 'deriv': dev.deriv(r, 0)
+    elif c == 'cost': dev.cost(r, 0)
+    elif c == 'hess': dev.hess(r, 0)
+  return dev
+
+
 def as_num(x, want_int):
   v = C.pf(x)
   return int(v) if (want_int and float(v).is_integer()) else v
@@ -278,7 +332,9 @@ class C09(Prop):
           '(sustainment < 1 or efficiency != 1), thermal additionally some external temperature <= 0.  Plus an all-integer family handed to '
           'the library as INTEGER-typed data (int arrays / Python ints: integer external temperatures incl. negatives and zero, integer flows, '
           'integer t_init, efficiency 1, sustainment 0 / 1) and a setter family (storage device built, then sustainment / efficiency / start / '
-          'capacity assigned: charge_at vs the state the constraints bound vs the recurrence for the NEW parameters)')
+          'capacity assigned: charge_at vs the state the constraints bound vs the recurrence for the NEW parameters); every storage constraint '
+          'fun / jac on the flat flow, its (1,n) row, integer-typed, and through a one-child DeviceSet; histories: cost / deriv / hess of one '
+          'storage device, then the state of the same and of NEW storage / thermal devices with the same (sustainment, n)')
   sizes = {'quick': 800, 'thorough': 20000}
   assumptions = ['oracle: the documented recurrence as a Python loop over exact fractions, compared at 1e-9 of the data scale']
 
@@ -295,12 +351,34 @@ class C09(Prop):
       elif q < 0.76: out.append(gen_int_tdev(rng, tier))
       elif q < 0.79: out.append(gen_int_sdev(rng, tier))
       elif q < 0.83: out.append(gen_int_soc(rng, tier))
-      elif q < 0.95: out.append(gen_soc(rng, tier))
+      elif q < 0.91: out.append(gen_soc(rng, tier))
+      elif q < 0.95: out.append(gen_hist(rng, tier))
       else: out.append(gen_base(rng, tier))
     return out
 
   # ---------------------------------------------------------------- T2
   def ops(self, case):
+    if case['kind'] == 'hist':
+      self.hist['hist'] = self.hist.get('hist', 0) + 1
+      cell = []
+      def warm():              # once per history, from empty caches
+        if not cell:
+          fresh_caches(); cell.append(do_warm(case))
+        return cell[0]
+      out = []
+      for sub in case['then']:
+        sc = dict(case['warm'], r=sub['r']) if sub.get('same') else sub
+        for op in self._ops(sc, (lambda: warm()) if sub.get('same') else None):
+          op.impl = (lambda f: lambda: (warm(), f())[1])(op.impl)
+          op.what = 'after %s of a storage device: %s' % ('/'.join(case['calls']), op.what)
+          out.append(op)
+      return out
+    out = self._ops(case)
+    for op in out:
+      op.impl = (lambda f: lambda: (fresh_caches(), f())[1])(op.impl)
+    return out
+
+  def _ops(self, case, dev0=None):
     dk = C.repo()
     from device_kit import utils
     k = case['kind']
@@ -316,7 +394,7 @@ class C09(Prop):
       if case.get(key): self.hist[key] = self.hist.get(key, 0) + 1
     cell = []
     def dev():                           # built inside the thunks: a constructor that raises is an implementation answer
-      if not cell: cell.append(make_dev(case))
+      if not cell: cell.append(dev0() if dev0 else make_dev(case))
       return cell[0]
     r = r_arr(case); rf = flat_arr(case)
     if k == 'sdev':
@@ -354,6 +432,27 @@ class C09(Prop):
 
   # ---------------------------------------------------------------- oracle
   def oracle(self, case):
+    fresh_caches()
+    if case['kind'] != 'hist':
+      return self._oracle(case)
+    try:
+      wdev = do_warm(case)
+    except Exception as ex:
+      return [{'key': {'cls': 'SDevice', 'kind': 'raises', 'exc': type(ex).__name__},
+               'detail': 'SDevice: %s raises %s(%s); %s' % ('/'.join(case['calls']), type(ex).__name__, ex, json_short(case['warm']))}]
+    for sub in case['then']:
+      sc = dict(case['warm'], r=sub['r']) if sub.get('same') else sub
+      fs_ = self._oracle(sc, wdev if sub.get('same') else None)
+      if fs_:
+        f = fs_[0]
+        f['key'] = dict(f['key'], history=True)
+        f['detail'] = 'HISTORY: after %s at r=%s of the storage device %s, the state of %s no longer follows the recurrence.  %s' % (
+          '/'.join(case['calls']), case['warm']['r'], json.dumps(strip_private_(case['warm']['dev']['prm'])),
+          'the same device' if sub.get('same') else 'a NEW %s with the same (sustainment, n)' % sub.get('dev', {}).get('cls', 'utils.soc call'), f['detail'])
+        return [f]
+    return []
+
+  def _oracle(self, case, dev0=None):
     C.repo()
     from device_kit import utils
     k = case['kind']
@@ -386,7 +485,7 @@ class C09(Prop):
     d = model_dev(case); n = d['n']; p = d['prm']     # documented state for the parameters after the `set` assignments
     r = [F(x) for x in case['r']]; rf = flat_arr(case)
     try:
-      dev = make_dev(case)
+      dev = dev0 if dev0 is not None else make_dev(case)
       if k == 'tdev':
         dev.r2t(r_arr(case))
       else:
@@ -408,33 +507,68 @@ class C09(Prop):
       if len(cons) != expect:
         fails.append({'key': {'cls': 'SDevice', 'kind': 'constraint-count'}, 'detail': 'SDevice has %d constraints, expected %d; %s' % (len(cons), expect, json_short(case))})
         return fails
-      try:
-        lo = [cons[2*ncb + 2*i]['fun'](rf) for i in range(n)]
-        hi = [cons[2*ncb + 2*i + 1]['fun'](rf) for i in range(n)]
-      except Exception as ex:
-        fails.append({'key': {'cls': 'SDevice', 'kind': 'constraint-raises', 'exc': type(ex).__name__, 'ints': bool(case.get('ints'))},
-                      'detail': 'SDevice: the SoC constraint `fun` raises %s(%s) on a flow charge_at accepts (flow dtype %s, efficiency %r); %s' % (
-                        type(ex).__name__, ex, rf.dtype, dev.efficiency, json_short(case))})
-        return fails
-      w = worst(lo, want)
-      if w: bad('SDevice', 'constraint-state', 'SoC >= 0 constraint value', lo, want, w)
-      w = worst(hi, [cap - x for x in want])
-      if w: bad('SDevice', 'constraint-state', 'SoC <= capacity constraint value', hi, [cap - x for x in want], w)
-      at = 2*ncb + 2*n
+      # the documented value of every storage-specific constraint, in the order the source emits them
       lbf = [F(x) for x in d['lb']]; hbf = [F(x) for x in d['hb']]
+      wv, what = [], []
+      for i in range(n):
+        wv += [want[i], cap - want[i]]; what += ['SoC >= 0 constraint (slot %d)' % i, 'SoC <= capacity constraint (slot %d)' % i]
       if rc[0]:
-        c0 = F(rc[0]); wv = [r[i] - c0*lbf[i]*want[i]/cap for i in range(n)]
-        gv = [cons[at + i]['fun'](rf) for i in range(n)]; at += n
-        w = worst(gv, wv)
-        if w: bad('SDevice', 'constraint-state', 'discharge-rate clip constraint value', gv, wv, w)
+        wv += [r[i] - F(rc[0])*lbf[i]*want[i]/cap for i in range(n)]; what += ['discharge-rate clip constraint (slot %d)' % i for i in range(n)]
       if rc[1]:
-        c1 = F(rc[1]); wv = [c1*hbf[i]*(1 - want[i]/cap) - r[i] for i in range(n)]
-        gv = [cons[at + i]['fun'](rf) for i in range(n)]; at += n
+        wv += [F(rc[1])*hbf[i]*(1 - want[i]/cap) - r[i] for i in range(n)]; what += ['charge-rate clip constraint (slot %d)' % i for i in range(n)]
+      wv.append(want[n - 1] - F(p['reserve'])*cap); what.append('end-of-window reserve constraint')
+      scons = cons[2*ncb:]
+      # the same logical flow in every form a caller hands over: flat (n,), the (1, n) row DeviceSet passes to a child, integer-typed
+      forms = [('flat', rf), ('row (1,n)', rf.reshape(1, -1))]
+      if rf.dtype.kind == 'f' and all(x.denominator == 1 for x in r):
+        ri = np().array([int(x) for x in r], dtype=int)
+        forms += [('integer-typed flat', ri), ('integer-typed row (1,n)', ri.reshape(1, -1))]
+      elif rf.dtype.kind != 'f':
+        forms += [('float flat', rf.astype(float))]
+      jac0 = None
+      for name, a in forms:
+        try:
+          gv = [float(np().array(c['fun'](a), dtype=float).reshape(-1)[0]) for c in scons]
+          jv = [np().array(c['jac'](a), dtype=float).reshape(-1) if 'jac' in c else None for c in scons]
+        except Exception as ex:
+          fails.append({'key': {'cls': 'SDevice', 'kind': 'constraint-raises', 'exc': type(ex).__name__, 'ints': bool(case.get('ints')), 'form': name},
+                        'detail': 'SDevice: a storage constraint `fun` / `jac` raises %s(%s) on the %s form of a flow charge_at accepts (dtype %s, efficiency %r); %s' % (
+                          type(ex).__name__, ex, name, a.dtype, dev.efficiency, json_short(case))})
+          return fails
         w = worst(gv, wv)
-        if w: bad('SDevice', 'constraint-state', 'charge-rate clip constraint value', gv, wv, w)
-      gv = [cons[at]['fun'](rf)]; wv = [want[n - 1] - F(p['reserve'])*cap]
-      w = worst(gv, wv)
-      if w: bad('SDevice', 'constraint-state', 'reserve constraint value', gv, wv, w)
+        if w:
+          i, err = w
+          fails.append({'key': {'cls': 'SDevice', 'kind': 'constraint-state', 'form': name.split(' ')[-2] if 'row' in name else 'flat'},
+                        'detail': 'SDevice: %s evaluated on the %s flow = %s but the state charge_at reports / the recurrence gives %s (relative deviation %.3g); input %s' % (
+                          what[i] if 0 <= i < len(what) else 'constraint list', name, gv[i] if 0 <= i < len(gv) else '?', float(wv[i]) if 0 <= i < len(wv) else '?', err, json_short(case))})
+          return fails
+        if jac0 is None:
+          jac0 = jv
+        else:
+          for q, (j0, j1) in enumerate(zip(jac0, jv)):
+            if j0 is not None and (j1 is None or j0.shape != j1.shape or not np().allclose(j0, j1, rtol=1e-9, atol=1e-12)):
+              fails.append({'key': {'cls': 'SDevice', 'kind': 'constraint-jac-form'},
+                            'detail': 'SDevice: Jacobian of the %s differs between the flat flow (%s) and its %s form (%s); input %s' % (
+                              what[q], j0.tolist(), name, None if j1 is None else j1.tolist(), json_short(case))})
+              return fails
+      # ... and through a one-child DeviceSet (which slices a (1, n) row out of its flow matrix for the child)
+      if not case.get('set'):
+        try:
+          dk = C.repo()
+          ds = dk.DeviceSet('set', [dev])
+          dcons = ds.constraints
+          for name, a in forms[:2]:
+            gv = [float(np().array(c['fun'](a), dtype=float).reshape(-1)[0]) for c in dcons[2*ncb:2*ncb + len(scons)]]
+            w = worst(gv, wv)
+            if w:
+              i, err = w
+              fails.append({'key': {'cls': 'SDevice', 'kind': 'constraint-state', 'form': 'deviceset'},
+                            'detail': 'SDevice inside a one-child DeviceSet: %s evaluated on the %s flow = %s but the state charge_at reports / the recurrence gives %s; input %s' % (
+                              what[i] if 0 <= i < len(what) else 'constraint list', name, gv[i] if 0 <= i < len(gv) else '?', float(wv[i]) if 0 <= i < len(wv) else '?', json_short(case))})
+              return fails
+        except Exception as ex:
+          fails.append({'key': {'cls': 'SDevice', 'kind': 'deviceset-raises', 'exc': type(ex).__name__},
+                        'detail': 'one-child DeviceSet over the storage device: constraints raise %s(%s); %s' % (type(ex).__name__, ex, json_short(case))})
       return fails
     if k == 'tdev':
       s = F(p['sustainment']); e = F(p['efficiency']); te = [F(x) for x in p['t_external']]; t0 = F(p['t_init'])
@@ -450,6 +584,8 @@ class C09(Prop):
 
   def nontrivial(self, case):
     k = case['kind']
+    if k == 'hist':
+      return F(case['warm']['dev']['prm']['efficiency']) < 1 and 'deriv' in case['calls']
     if k == 'base':
       return F(case['s']) not in (0, 1) and F(case['b']) != 0 and case['n'] >= 2
     r = [F(x) for x in case['r']]
@@ -464,6 +600,11 @@ class C09(Prop):
 
   def extra_evidence(self):
     return {'case_kinds': dict(self.hist)}
+
+
+def strip_private_(x):
+  from ..check import strip_private
+  return strip_private(x)
 
 
 def json_short(case):
